@@ -55,6 +55,10 @@ CHECKS = {
    text="Backup.tla models the data tree, backup copies and backup_lock.json at file-system-step granularity (mkdir, copy open/chunks/metadata, lock open/write pieces/close), Crash at every step, Reopen (= constructing BackupManager: omits / raises / lists), modify, delete, damage, restore[tasks], remodel, create-again; TLC checks NeverHalfValid, NoOverwrite, RestoreIdentity, RestoreTasksOnlyThose, RemodelFromOriginals, RemodelIdempotent etc. and rejects three defective designs (record first, overwrite, read live); every crash prefix of the real create_backup I/O sequence (child process stepped by Python-level FS shims, SIGKILL) followed by a fresh BackupManager, TLC histories through the real CLIs and seeded random runs are compared step by step with the spec state (bytes hashed) and validated by Trace_Backup",
    note="built by a sub-agent under the same brief; Python-level interposition of file operations; bounded trees (<= 3 files exhaustively, 5 random)",
    technique="TLA+ spec + TLC model checking; crash-point enumeration on real processes; TLC trace validation"),
+ "C07": dict(
+   text="FileCheck.tla prescribes, for a table over abstract cells (HED column: 2 valid tags, failing cell, n/a, unmatched Offset, Delay/Duration group; categorical column: 2 categories, failing category, n/a, unknown key), with or without an onset column, distinct onsets in any order and n/a onsets, the multiset of <<code, file row, column>>; TLC checks ShuffleLaw and LabelsTrue on all tables <= 2 rows and emits them (3-row tables by simulation); each is concretised (rotating tags, 8 kinds of failing cell incl. bad Delay values, 6 Delay/Duration unit spellings) and run through TabularInput.validate: never raises, errors equal the prescription with row/column labels (extra errors allowed only on rows with a failing cell), rows with clean cells equal real string-level validation of the assembled row, and every row permutation yields the same issues with labels following the rows plus exactly one out-of-order warning",
+   note="distinct onsets only (equal-onset merging is covered by C10/C20); bounded table size; 8.3.0 vocabulary",
+   technique="TLA+ spec + TLC model checking; exhaustive table replay; differential against string-level validation"),
 }
 ALL = ["C%02d" % i for i in range(1, 21)]
 m = {
